@@ -915,10 +915,6 @@ func (runInfo *runInfoStruct) runDeleteStmt(stmt *ast.DeleteStmt) {
 			runInfo.rv = nilValue
 			return
 		}
-		if item.IsNil() {
-			runInfo.rv = nilValue
-			return
-		}
 		runInfo.rv, runInfo.err = runInfo.convertValue(runInfo.rv, item.Type().Key())
 		if runInfo.err != nil {
 			runInfo.err = newStringError(stmt, "cannot use type "+item.Type().Key().String()+" as type "+runInfo.rv.Type().String()+" in delete")
@@ -927,6 +923,11 @@ func (runInfo *runInfoStruct) runDeleteStmt(stmt *ast.DeleteStmt) {
 		}
 		if !isHashable(runInfo.rv) {
 			runInfo.err = newStringError(stmt, "type "+hashableTypeString(runInfo.rv)+" cannot be used as map key in delete")
+			runInfo.rv = nilValue
+			return
+		}
+		if item.IsNil() {
+			// nothing to delete from a nil map
 			runInfo.rv = nilValue
 			return
 		}
